@@ -244,7 +244,8 @@ void ResolutionProof::printSMT2(std::ostream & out, CoreSMTSolver & s, THandler 
     cache.insert( cr );
   }
 
-  out << "cls_0"  << '\n';
+  // The derivation of the empty clause is bound above under the name of CRef_Undef
+  out << "cls_" << CRef_Undef << '\n';
 
   for ( int i = 0 ; i < nof_lets ; i ++ )
     out << ")";
